@@ -1,9 +1,9 @@
 """C17 - results depend only on the model, not on process history or diagnostics.
 
 spec:   spec/Process.tla (actions NewModel, DeclareHead, DeclareRest, Main, RegisterLogs, Cleanup, AddFunction,
-        Reparse, Solve, SolveAgain, SetTrace; invariants C17_HistoryIndependent, C17_ReparseClean, action property
+        SetSteady, Reparse, Solve, SolveAgain, SetTrace; invariants C17_HistoryIndependent, C17_ReparseClean, action property
         C17_ResolveIdempotent)
-TLC:    exhaustive check of the bounded instances (2 models x 2 blocks, 0-2 stand-alone solvers);
+TLC:    exhaustive check of the bounded instances (0-2 models x 2 blocks, 0-2 stand-alone solvers);
         every maximal history that computes at least one result is emitted
 replay: every history is executed on real Model / EquationSolver / Logger objects inside a child
         Python process.  The histories are dealt (seeded shuffle) into batches; one child executes
@@ -40,6 +40,10 @@ the series.  AddFunction(s, f1 | f2) registers the SAME name 'f' with different 
 the reference of block B is taken per body (B with f1, B with f2 alone in a fresh process) and, for a solver
 that never registered f, B alone raises NameError - in a history it must raise as well (C17_HistoryIndependent:
 the outcome of a solver depends on its own function table only).
+SetSteady(s, on) sets the solver's own option ParameterSolveInitialSteadyState (with
+ParameterInitialSteadyStateMaxTime = 40; the search converges for both blocks): every solve with the option on
+runs the search, so the reference is taken per option as well (block [: body] [+ss]) and a re-solve is compared
+with the previous solve and with the fresh-process run made with the same option.
 Conformance clauses (DRIFT only): id counter and logger registry after every action, cached
 VariableList, number of ('k', ...) entries SetInitialConditions has appended to Parser.Exogenous
 (one per solve: the list grows, the series do not change), text of Model.FinalEquations.
@@ -82,18 +86,24 @@ MaxTime = 4
 """, 'horizon': 4, 'func': True, 'declared': ['LAG_x', 'g', 'v', 'w', 'x']},
 }
 MODEL_HORIZON = {'SIM': 2, 'TWO': 6}
+def _act(a, x='', b='', k=0):
+    return {'a': a, 'x': x, 'b': b, 'k': k}
+
+
 REFERENCE_HIST = {
-    'SIM': [{'a': 'NewModel', 'x': 'SIM', 'b': '', 'k': 0}, {'a': 'DeclareHead', 'x': 'SIM', 'b': '', 'k': 0},
-            {'a': 'DeclareRest', 'x': 'SIM', 'b': '', 'k': 0}, {'a': 'Main', 'x': 'SIM', 'b': '', 'k': 0}],
-    'TWO': [{'a': 'NewModel', 'x': 'TWO', 'b': '', 'k': 0}, {'a': 'DeclareHead', 'x': 'TWO', 'b': '', 'k': 0},
-            {'a': 'DeclareRest', 'x': 'TWO', 'b': '', 'k': 0}, {'a': 'Main', 'x': 'TWO', 'b': '', 'k': 0}],
-    'A': [{'a': 'Reparse', 'x': 's1', 'b': 'A', 'k': 0}, {'a': 'Solve', 'x': 's1', 'b': 'A', 'k': 0}],
-    'B:none': [{'a': 'Reparse', 'x': 's1', 'b': 'B', 'k': 0}, {'a': 'Solve', 'x': 's1', 'b': 'B', 'k': 0}],
-    'B:f1': [{'a': 'AddFunction', 'x': 's1', 'b': 'f1', 'k': 0}, {'a': 'Reparse', 'x': 's1', 'b': 'B', 'k': 0},
-             {'a': 'Solve', 'x': 's1', 'b': 'B', 'k': 0}],
-    'B:f2': [{'a': 'AddFunction', 'x': 's1', 'b': 'f2', 'k': 0}, {'a': 'Reparse', 'x': 's1', 'b': 'B', 'k': 0},
-             {'a': 'Solve', 'x': 's1', 'b': 'B', 'k': 0}],
+    'SIM': [_act('NewModel', 'SIM'), _act('DeclareHead', 'SIM'), _act('DeclareRest', 'SIM'), _act('Main', 'SIM')],
+    'TWO': [_act('NewModel', 'TWO'), _act('DeclareHead', 'TWO'), _act('DeclareRest', 'TWO'), _act('Main', 'TWO')],
 }
+for _blk, _body in (('A', ''), ('B', 'none'), ('B', 'f1'), ('B', 'f2')):
+    for _ss in (False, True):
+        _h = []
+        if _body in ('f1', 'f2'):
+            _h.append(_act('AddFunction', 's1', _body))
+        if _ss:
+            _h.append(_act('SetSteady', 's1', '', 1))
+        _h += [_act('Reparse', 's1', _blk), _act('Solve', 's1', _blk)]
+        REFERENCE_HIST[_blk + (':' + _body if _body else '') + ('+ss' if _ss else '')] = _h
+STEADY_MAXTIME = 40
 
 
 # --------------------------------------------------------------------------------------
@@ -111,9 +121,10 @@ def user_f2(z):
 USER_FUNCTIONS = {'f1': user_f1, 'f2': user_f2}
 
 
-def ref_key(block, body):
-    """name of the fresh-process reference of a block solved by a solver that registered `body` itself"""
-    return block + ':' + body if BLOCKS[block]['func'] else block
+def ref_key(block, body, steady):
+    """name of the fresh-process reference of a block solved by a solver that registered `body` itself and
+    has the steady-state option `steady`"""
+    return (block + ':' + body if BLOCKS[block]['func'] else block) + ('+ss' if steady else '')
 
 
 def snapshot(holder):
@@ -137,7 +148,8 @@ def id_counter():
 def blank(ev, x='', b='', k=0):
     return {'ev': ev, 'x': x, 'b': b, 'k': k, 'ok': True, 'exc': '', 'same_keys': True, 'same_vals': True,
             'full': True, 'same_prev': True, 'same_eqs': True, 'varlist': [], 'nk': 0, 'id1': 0,
-            'logs': {}, 'diff': '', 'traced': False, 'hasfunc': False, 'remnants': [], 'exp_ok': True}
+            'logs': {}, 'diff': '', 'traced': False, 'hasfunc': False, 'remnants': [], 'exp_ok': True, 'steady': False,
+            'ss': False}
 
 
 def compare(ev, snap, ref, horizon):
@@ -238,7 +250,7 @@ def execute(hist, refs, base):
 
     def solver_of(s):
         if s not in solvers:
-            solvers[s] = {'solver': EquationSolver(), 'block': '', 'prev': None, 'body': 'none'}
+            solvers[s] = {'solver': EquationSolver(), 'block': '', 'prev': None, 'body': 'none', 'steady': False}
         return solvers[s]
 
     for act in hist:
@@ -287,6 +299,12 @@ def execute(hist, refs, base):
                 st['body'] = b
                 st['prev'] = None           # the solver's own function table changed
                 st['solver'].AddFunction('f', USER_FUNCTIONS[b])
+            elif a == 'SetSteady':
+                st = solver_of(x)
+                st['steady'] = (k == 1)
+                st['prev'] = None           # the solver's own configuration changed
+                st['solver'].ParameterInitialSteadyStateMaxTime = STEADY_MAXTIME
+                st['solver'].ParameterSolveInitialSteadyState = (k == 1)
             elif a == 'Reparse':
                 st = solver_of(x)
                 st['block'] = b
@@ -299,11 +317,12 @@ def execute(hist, refs, base):
                 ts = sol.TraceStep
                 ev['traced'] = ts is not None and 1 <= ts <= blk['horizon']
                 ev['hasfunc'] = len(sol.Functions) > 0
+                ev['ss'] = st['steady']
                 try:
                     sol.SolveEquation()
                 finally:
                     snap = snapshot(sol.TimeSeries)
-                    rk = ref_key(st['block'], st['body'])
+                    rk = ref_key(st['block'], st['body'], st['steady'])
                     ref = None if refs is None else refs[rk]['series']
                     compare(ev, snap, ref, blk['horizon'])
                     if refs is None:
@@ -315,6 +334,7 @@ def execute(hist, refs, base):
                     st['prev'] = snap
                     ev['varlist'] = [str(v) for v in sol.VariableList]
                     ev['nk'] = sum(1 for e in sol.Parser.Exogenous if e[0] == 'k')
+                    ev['steady'] = bool(sol.ParameterSolveInitialSteadyState)
             elif a == 'SetTrace':
                 if x in MODEL_HORIZON:
                     models[x]['model'].EquationSolver.TraceStep = (k if k else None)
@@ -411,7 +431,7 @@ def references(wd):
         evs = got['ref:' + n]
         last = evs[-1]
         bad = [e for e in evs if not e['ok']]
-        if n.endswith(':none'):
+        if n.split('+')[0].endswith(':none'):
             # a block that calls f, solved by a solver without f: alone it must fail with NameError
             if len(bad) != 1 or bad[0] is not last or not last['exc'].startswith('NameError') or 'snap' not in last:
                 raise core.MachineryError('reference run of %s: expected NameError in the solve, got %s' % (
@@ -423,8 +443,8 @@ def references(wd):
                 n, json.dumps(bad[:1] or last)[:400]))
         refs[n] = {'series': last['snap'], 'eqs': last.get('eqs', ''), 'ok': True}
         keys = set(last['snap'])
-        if n.split(':')[0] in BLOCKS:
-            dec = set(BLOCKS[n.split(':')[0]]['declared'])
+        if n.split('+')[0].split(':')[0] in BLOCKS:
+            dec = set(BLOCKS[n.split('+')[0].split(':')[0]]['declared'])
             if not (dec <= keys and keys - dec <= {'k', 't'}):
                 raise core.MachineryError('reference key set of block %s is not its declared variables: %s' % (
                     n, sorted(keys)))
@@ -468,17 +488,17 @@ def signature(clause, events):
             return 'traced-step-with-user-function-raises-TypeError'
         return '%s-raises-%s' % (e['ev'], cls)
     if clause == 'C17_ResolveIdempotent':
-        return 'resolve-changes-series:' + e['b']
+        return 'resolve-changes-series:' + e['b'] + (':steady-state-option-on' if e['ss'] else '')
     what = 'model:' + e['x'] if e['ev'] == 'Main' else 'block:' + e['b']
     if not e['same_keys']:
         return 'key-set-differs:' + what
-    return 'series-differ:%s%s' % (what, ':traced' if e['traced'] else '')
+    return 'series-differ:%s%s%s' % (what, ':traced' if e['traced'] else '', ':steady-state-option-on' if e['ss'] else '')
 
 
 def nontrivial(beh):
     """some result is computed after at least one action that is not part of computing it alone
-    (alone = NewModel, DeclareHead, DeclareRest, Main of that model / one AddFunction, the first Reparse and the
-    first Solve of that solver)"""
+    (alone = NewModel, DeclareHead, DeclareRest, Main of that model / at most one AddFunction and SetSteady, the first
+    Reparse and the first Solve of that solver)"""
     h = beh['hist']
     for i, a in enumerate(h):
         if a['a'] not in PRODUCE:
@@ -486,7 +506,8 @@ def nontrivial(beh):
         mine = [p for p in h[:i] if p['x'] == a['x']]
         if a['a'] == 'Main':
             own = [p for p in mine if p['a'] in ('NewModel', 'DeclareHead', 'DeclareRest')]
-        elif a['a'] == 'Solve' and sorted(p['a'] for p in mine) in (['Reparse'], ['AddFunction', 'Reparse']):
+        elif a['a'] == 'Solve' and sorted(set(p['a'] for p in mine) - {'AddFunction', 'SetSteady'}) == ['Reparse'] \
+                and len(mine) == len(set(p['a'] for p in mine)):
             own = mine
         else:
             own = []
@@ -605,16 +626,16 @@ def judge(rep, behs, refs, wd, n_fresh, n_batches):
 
 def run(rep):
     quick = rep.tier == 'quick'
-    cfgs = ['MC_Process_quick.cfg', 'MC_Process_quick2.cfg', 'MC_Process_quick3.cfg']
+    cfgs = ['MC_Process_quick.cfg', 'MC_Process_quick2.cfg', 'MC_Process_quick3.cfg', 'MC_Process_quick4.cfg']
     if not quick:
-        cfgs += ['MC_Process_thorough.cfg', 'MC_Process_thorough2.cfg', 'MC_Process_thorough3.cfg',
-                 'MC_Process_thorough4.cfg']
+        cfgs += ['MC_Process_thorough%s.cfg' % n for n in ('', '2', '3', '4', '5', '6', '7')]
     rep.rule = ('histories = all maximal behaviours of the bounded Process instances emitted by TLC that contain a '
                 'Main / Solve / SolveAgain (2 models, each declared in two parts so that other models are created in '
                 'between; 2 blocks sharing variable names; the user function registered per solver with one of 2 '
-                'bodies; instances: 1 solver length 5; 2 solvers length 4; models only length 6; thorough: also '
-                '1 solver length 6; 2 solvers without models length 5 with 3 trace settings; models only length 7 and, '
-                'untraced, length 8); '
+                'bodies; the steady-state option per solver; instances: 1 solver length 5; 2 solvers length 4; models '
+                'only length 6; model TWO + 1 solver length 6 restricted to histories with both a Main and a Solve; '
+                'thorough: also 1 solver length 6; 2 solvers length 5; models only length 7 and, untraced, length 8; '
+                'SIM / TWO + 1 solver length 7 (Main and Solve); both models + 1 solver length 5); '
                 'each executed in a child process after the other histories of its batch (mode accumulated), a '
                 'seeded sample also alone (mode fresh); distinct = distinct (history, mode); non-trivial = some '
                 'result is computed after at least one action that is not part of computing it alone')
@@ -660,6 +681,9 @@ def run(rep):
                   n_batches=32)
     finally:
         core.cleanup(wd)
+    if not quick:       # extension specification (Logger life cycle): thorough tier only
+        from harness import loggercheck
+        loggercheck.run_logger(rep)
 
 
 def replay(path):
